@@ -12,8 +12,8 @@
      on the user's channel) | ExitWantLock (left the loop, deferred function waits for b.lock) |
      Exited;
    * Subscribe callers blocked on b.lock: [pend_subs];
-   * the Close caller: [cl] = CWaitLoop (inside queue.Close, waiting for the loop to end) |
-     CWantLock | CWaitFwd (wg.Wait) | CReturned.
+   * the FIRST Close caller: [cl] = CWaitLoop (inside queue.Close, waiting for the loop to end) |
+     CWantLock | CWaitFwd (wg.Wait) | CReturned; further Close callers: [cl2].
    Critical sections that cannot block (Subscribe's, the forwarder's deregistration, Close's)
    are single events that require the lock to be free.
 
@@ -32,6 +32,9 @@ Inductive fwdst := Idle | Holding (v : val) | ExitWantLock | Exited.
 Inductive lockst := Free | Exec (v : val) (idx : nat).
 Inductive procst := PIdle | PCall (v : val).
 Inductive closepc := CNone | CWaitLoop | CWantLock | CWaitFwd | CReturned.
+(* a further Close call (queue.Close's CompareAndSwap fails): waits for the queue loop to be gone
+   (deferred p.wg.Wait()), takes the lock (closes closeCh if nobody has yet), waits for forwarders *)
+Inductive close2pc := K2WaitLoop | K2WantLock | K2WaitFwd | K2Returned.
 
 Record sub := mkSub {
   prompt : bool;        (* consumer: receives whenever something is offered *)
@@ -70,54 +73,59 @@ Record st := mkSt {
   (* ghost *)
   fanout : list val;             (* values for which execute started to fan out, in order *)
   hist : list (key * val * Z);   (* accepted Batch calls: key, value, time of the call *)
-  fired : list (nat * Z)         (* callbacks: instance number, time of the pop *)
+  fired : list (nat * Z);        (* callbacks: instance number, time of the pop *)
+  (* further Close calls in progress, in the order they were issued: call id, where it is *)
+  cl2 : list (Z * close2pc)
 }.
 
 Definition init : st :=
-  mkSt [] Free PIdle [] 0 false false false CNone [] [] [] [].
+  mkSt [] Free PIdle [] 0 false false false CNone [] [] [] [] [].
 
 (* ---------------------------------------------------------------------------------------- *)
 (* setters *)
 
 Definition set_subs (s : st) (x : list sub) : st :=
   mkSt x (lock s) (proc s) (pending s) (now s) (qstopped s) (loop_dead s) (closed s) (cl s)
-       (pend_subs s) (fanout s) (hist s) (fired s).
+       (pend_subs s) (fanout s) (hist s) (fired s) (cl2 s).
 Definition set_lock (s : st) (x : lockst) : st :=
   mkSt (subs s) x (proc s) (pending s) (now s) (qstopped s) (loop_dead s) (closed s) (cl s)
-       (pend_subs s) (fanout s) (hist s) (fired s).
+       (pend_subs s) (fanout s) (hist s) (fired s) (cl2 s).
 Definition set_proc (s : st) (x : procst) : st :=
   mkSt (subs s) (lock s) x (pending s) (now s) (qstopped s) (loop_dead s) (closed s) (cl s)
-       (pend_subs s) (fanout s) (hist s) (fired s).
+       (pend_subs s) (fanout s) (hist s) (fired s) (cl2 s).
 Definition set_pending (s : st) (x : list (key * pend)) : st :=
   mkSt (subs s) (lock s) (proc s) x (now s) (qstopped s) (loop_dead s) (closed s) (cl s)
-       (pend_subs s) (fanout s) (hist s) (fired s).
+       (pend_subs s) (fanout s) (hist s) (fired s) (cl2 s).
 Definition set_now (s : st) (x : Z) : st :=
   mkSt (subs s) (lock s) (proc s) (pending s) x (qstopped s) (loop_dead s) (closed s) (cl s)
-       (pend_subs s) (fanout s) (hist s) (fired s).
+       (pend_subs s) (fanout s) (hist s) (fired s) (cl2 s).
 Definition set_qstopped (s : st) (x : bool) : st :=
   mkSt (subs s) (lock s) (proc s) (pending s) (now s) x (loop_dead s) (closed s) (cl s)
-       (pend_subs s) (fanout s) (hist s) (fired s).
+       (pend_subs s) (fanout s) (hist s) (fired s) (cl2 s).
 Definition set_loop_dead (s : st) (x : bool) : st :=
   mkSt (subs s) (lock s) (proc s) (pending s) (now s) (qstopped s) x (closed s) (cl s)
-       (pend_subs s) (fanout s) (hist s) (fired s).
+       (pend_subs s) (fanout s) (hist s) (fired s) (cl2 s).
 Definition set_closed (s : st) (x : bool) : st :=
   mkSt (subs s) (lock s) (proc s) (pending s) (now s) (qstopped s) (loop_dead s) x (cl s)
-       (pend_subs s) (fanout s) (hist s) (fired s).
+       (pend_subs s) (fanout s) (hist s) (fired s) (cl2 s).
 Definition set_cl (s : st) (x : closepc) : st :=
   mkSt (subs s) (lock s) (proc s) (pending s) (now s) (qstopped s) (loop_dead s) (closed s) x
-       (pend_subs s) (fanout s) (hist s) (fired s).
+       (pend_subs s) (fanout s) (hist s) (fired s) (cl2 s).
 Definition set_pend_subs (s : st) (x : list (Z * bool)) : st :=
   mkSt (subs s) (lock s) (proc s) (pending s) (now s) (qstopped s) (loop_dead s) (closed s) (cl s)
-       x (fanout s) (hist s) (fired s).
+       x (fanout s) (hist s) (fired s) (cl2 s).
 Definition set_fanout (s : st) (x : list val) : st :=
   mkSt (subs s) (lock s) (proc s) (pending s) (now s) (qstopped s) (loop_dead s) (closed s) (cl s)
-       (pend_subs s) x (hist s) (fired s).
+       (pend_subs s) x (hist s) (fired s) (cl2 s).
 Definition set_hist (s : st) (x : list (key * val * Z)) : st :=
   mkSt (subs s) (lock s) (proc s) (pending s) (now s) (qstopped s) (loop_dead s) (closed s) (cl s)
-       (pend_subs s) (fanout s) x (fired s).
+       (pend_subs s) (fanout s) x (fired s) (cl2 s).
 Definition set_fired (s : st) (x : list (nat * Z)) : st :=
   mkSt (subs s) (lock s) (proc s) (pending s) (now s) (qstopped s) (loop_dead s) (closed s) (cl s)
-       (pend_subs s) (fanout s) (hist s) x.
+       (pend_subs s) (fanout s) (hist s) x (cl2 s).
+Definition set_cl2 (s : st) (x : list (Z * close2pc)) : st :=
+  mkSt (subs s) (lock s) (proc s) (pending s) (now s) (qstopped s) (loop_dead s) (closed s) (cl s)
+       (pend_subs s) (fanout s) (hist s) (fired s) x.
 
 Definition sb_wants (b : sub) (x : nat) : sub :=
   mkSub (prompt b) x (buf b) (fwd b) (ctx_done b) (exit_closed b) (registered b) (user_closed b)
@@ -200,11 +208,15 @@ Inductive ev :=
 | FwdExitLocked (i : nat)
 | ConsSeeClosed (i : nat)
 | SubscribeLocked (j : nat)
-| CloseLoopDone | CloseLock | CloseWait.
+| CloseLoopDone | CloseLock | CloseWait
+(* a further Close call (any number, each from its own goroutine) *)
+| Close2Call (id : Z)
+| Close2LoopDone (j : nat) | Close2Lock (j : nat) | Close2Wait (j : nat).
 
 Definition internal (e : ev) : bool :=
   match e with
-  | Batch _ _ | Advance _ | SubscribeCall _ _ | Cancel _ | Want _ | WantAll _ | CloseCall => false
+  | Batch _ _ | Advance _ | SubscribeCall _ _ | Cancel _ | Want _ | WantAll _ | CloseCall
+  | Close2Call _ => false
   | _ => true
   end.
 
@@ -387,6 +399,35 @@ Definition step (vr : variant) (iv : Z) (s : st) (e : ev) : option st :=
                     then Some (set_cl s CReturned) else None
       | _ => None
       end
+  (* A further Close call while / after a first one: b.queue.Close() finds the queue already
+     stopped and only waits (p.wg.Wait()) for the loop goroutine to be gone ... *)
+  | Close2Call id =>
+      match cl s with
+      | CNone => None
+      | _ => Some (set_cl2 s (cl2 s ++ [(id, K2WaitLoop)]))
+      end
+  | Close2LoopDone j =>
+      match nth_error (cl2 s) j with
+      | Some (id, K2WaitLoop) =>
+          if loop_dead s then Some (set_cl2 s (upd_nth j (id, K2WantLock) (cl2 s))) else None
+      | _ => None
+      end
+  (* ... then b.lock.Lock(); the CompareAndSwap on closed (closing closeCh if this call is the
+     first to get here); b.lock.Unlock() ... *)
+  | Close2Lock j =>
+      match nth_error (cl2 s) j, lock s with
+      | Some (id, K2WantLock), Free =>
+          Some (set_closed (set_cl2 s (upd_nth j (id, K2WaitFwd) (cl2 s))) true)
+      | _, _ => None
+      end
+  (* ... and the deferred b.wg.Wait() *)
+  | Close2Wait j =>
+      match nth_error (cl2 s) j with
+      | Some (id, K2WaitFwd) =>
+          if forallb (fun b => is_exited (fwd b)) (subs s)
+          then Some (set_cl2 s (upd_nth j (id, K2Returned) (cl2 s))) else None
+      | _ => None
+      end
   end.
 
 Fixpoint run (vr : variant) (iv : Z) (s : st) (es : list ev) : option st :=
@@ -415,7 +456,9 @@ Definition candidates (s : st) : list ev :=
   ++ flat_map sub_cands (seq 0 (length (subs s)))
   ++ map SubscribeLocked (seq 0 (length (pend_subs s)))
   ++ map FwdExitLocked (seq 0 (length (subs s)))
-  ++ [CloseLoopDone; CloseLock; CloseWait; ExecBegin]
+  ++ [CloseLoopDone; CloseLock; CloseWait]
+  ++ flat_map (fun j => [Close2LoopDone j; Close2Lock j; Close2Wait j]) (seq 0 (length (cl2 s)))
+  ++ [ExecBegin]
   ++ map (fun e => Pop (fst e)) (pending s).
 
 Definition enabledb (vr : variant) (iv : Z) (s : st) (e : ev) : bool :=
@@ -437,9 +480,12 @@ Definition exec_cost (s : st) : nat :=
   end.
 Definition close_cost (c : closepc) : nat :=
   match c with CNone => 0 | CWaitLoop => 3 | CWantLock => 2 | CWaitFwd => 1 | CReturned => 0 end.
+Definition close2_cost (c : close2pc) : nat :=
+  match c with K2WaitLoop => 3 | K2WantLock => 2 | K2WaitFwd => 1 | K2Returned => 0 end.
 Definition measure (s : st) : nat :=
   length (pending s) * (3 * total_subs s + 3) + exec_cost s
-  + list_sum (map sub_cost (subs s)) + 4 * length (pend_subs s) + close_cost (cl s).
+  + list_sum (map sub_cost (subs s)) + 4 * length (pend_subs s) + close_cost (cl s)
+  + list_sum (map (fun e => close2_cost (snd e)) (cl2 s)).
 
 (* run internal events (in candidate priority order) until none is enabled *)
 Fixpoint quiesce_fuel (fuel : nat) (vr : variant) (iv : Z) (s : st) : st :=
